@@ -25,6 +25,7 @@ def shards(tier, seed):
 
     names = list(S.COMMANDS)
     out = [{"id": "seq-pairs", "kind": "pairs"}, {"id": "alias", "kind": "alias"}, {"id": "hashseeds", "kind": "hashseeds", "probe": str(seed)}]
+    out += [{"id": "first-decodes-%d" % i, "kind": "first-decodes", "salt": "%s-%d" % (seed, i)} for i in range(2 if tier == "quick" else 12)]
     if tier == "quick":
         out.append({"id": "seq-triples", "kind": "triples", "n": 2000, "firsts": None})
         rng = random.Random("c09pairs:%s" % seed)
@@ -205,10 +206,63 @@ def add_extra_programs(S, base, args, names):
             base[name] = None
 
 
+def first_decodes(ctx, shard):
+    """runs in an interpreter that has decoded nothing yet. Per format: responses whose length and count fields say zero,
+    one, or the largest value although data follows (what odd firmware sends; reserved but seen) are decoded *first*, then
+    well-formed responses of the same format (several devices, several element / page / descriptor kinds), then the odd ones
+    again: what is decoded from a response depends on that response alone, not on what the class has decoded before"""
+    import random as _random
+
+    from vmon.spec import datain as D
+
+    rng = _random.Random("c09-first-decodes:%s" % shard.get("salt", 0))
+
+    def outcome(f, b, v):
+        try:
+            return ("ok", repr(f.lib_decode(bytearray(b), v)))
+        except Exception as e:  # noqa: BLE001
+            return ("raises", type(e).__name__)
+
+    for name, f in D.FORMATS.items():
+        odd = []
+        for _rep in range(4):
+            v = f.gen(rng)
+            try:
+                b = bytearray(f.encode(v))
+                sites = f.length_sites(v, b)
+            except Exception:  # noqa: BLE001
+                continue
+            for off, n in sites:
+                for val in (0, 1, (1 << (8 * n)) - 1, int.from_bytes(b[off:off + n], "big") // 2):
+                    x = bytearray(b)
+                    x[off:off + n] = val.to_bytes(n, "big")
+                    if x != b:
+                        odd.append((bytes(x), v))
+        if not odd:
+            continue
+        before = [outcome(f, x, v) for x, v in odd]
+        for _rep in range(12):
+            v = f.gen(rng)
+            try:
+                f.lib_decode(bytearray(f.encode(v)), v)
+            except Exception:  # noqa: BLE001
+                pass
+        after = [outcome(f, x, v) for x, v in odd]
+        ctx.case(("first-decodes", name, len(odd)), True)
+        ctx.count("odd_responses_decoded_before_and_after_well_formed_ones", len(odd))
+        for (x, _v), r1, r2 in zip(odd, before, after):
+            if r1 != r2:
+                ctx.fail("C09:decode.depends_on_earlier_decodes.%s" % name, "%s: the response %s... decoded to %s as the first of its kind in the process and to %s after well-formed responses had been decoded"
+                         % (name, x[:24].hex(), r1[1][:120], r2[1][:120]), {"format": name, "response": x.hex()})
+                break
+
+
 def run(shard, ctx):
     from vmon.spec import cdb as S
 
     kind = shard["kind"]
+    if kind == "first-decodes":
+        return first_decodes(ctx, shard)
     names = list(S.COMMANDS)
     base = {}
     args = {}
@@ -330,12 +384,59 @@ def derived_decoders(ctx, S):
             ctx.fail("C09:sequential.raises.%s" % type(e).__name__, "derived-decoder history raised %s: %s" % (type(e).__name__, e), {"class": parent.__name__}, exc=e)
 
 
+def own_commands(ctx, S):
+    """commands the library has no class for, written by the application directly on SCSICommand (START STOP UNIT, SEEK(10),
+    a vendor command): the constructor fills the CDB and the buffers it was given *in place*. Several live commands of the same
+    CDB length and buffer sizes: each keeps its own bytes"""
+    import pyscsi.pyscsi.scsi_enum_command as E
+    from pyscsi.pyscsi.scsi_command import SCSICommand
+    from pyscsi.pyscsi.scsi_opcode import OpCode
+
+    class InPlace(SCSICommand):
+        def __init__(self, opcode, fill, dataout_alloclen=0, datain_alloclen=0):
+            SCSICommand.__init__(self, opcode, dataout_alloclen, datain_alloclen)
+            self.cdb[0] = self.opcode.value
+            for i in range(1, len(self.cdb) - 1):
+                self.cdb[i] = (fill + i) & 0xFF
+            for i in range(len(self.dataout)):
+                self.dataout[i] = (fill ^ i) & 0xFF
+            for i in range(len(self.datain)):
+                self.datain[i] = (fill + 2 * i) & 0xFF
+
+    ops = [OpCode("START_STOP_UNIT", 0x1B, {}), OpCode("SEEK_10", 0x2B, {}), OpCode("REZERO", 0x01, {}), OpCode("VENDOR_A9", 0xA9, {}), OpCode("VENDOR_8B", 0x8B, {}),
+           E.spc.TEST_UNIT_READY, E.sbc.READ_10]
+    try:
+        live = []
+        for rnd in range(3):
+            for j, op in enumerate(ops):
+                fill = 0x10 * (rnd + 1) + j
+                sizes = ((0, 0), (8, 0), (0, 8), (8, 8))[(rnd + j) % 4]
+                cmd = InPlace(op, fill, *sizes)
+                live.append((cmd, bytes(cmd.cdb), bytes(cmd.dataout), bytes(cmd.datain), op.name, fill))
+                ctx.count("own_command_objects")
+            # ... with shipped commands built in between
+            from pyscsi.pyscsi.scsi_cdb_testunitready import TestUnitReady
+
+            TestUnitReady(E.spc.TEST_UNIT_READY)
+        ctx.case(("own-commands", len(live)), True)
+        for cmd, cdb, dout, din, name, fill in live:
+            if bytes(cmd.cdb) != cdb or bytes(cmd.dataout) != dout or bytes(cmd.datain) != din:
+                ctx.fail("C09:own_command.changed_by_later_commands", "a %s command written directly on SCSICommand (filled in place with %#x) holds cdb %s / data-out %s / data-in %s after later commands were built; "
+                         "it was built as %s / %s / %s" % (name, fill, bytes(cmd.cdb).hex(), bytes(cmd.dataout).hex(), bytes(cmd.datain).hex(), cdb.hex(), dout.hex(), din.hex()), {"command": name})
+                break
+        if len({id(c[0].cdb) for c in live}) != len(live):
+            ctx.fail("C09:own_command.cdb_shared", "two live commands written directly on SCSICommand hold one CDB object", {})
+    except Exception as e:  # noqa: BLE001
+        ctx.fail("C09:sequential.raises.%s" % type(e).__name__, "own-command history raised %s: %s" % (type(e).__name__, e), {}, exc=e)
+
+
 def base_class_and_derived(ctx, S, base, args):
     """histories that also use the generic base class (as older code did: SCSICommand.unmarshall_cdb) and a command
     class derived by the user from a shipped one with an extended layout"""
     from pyscsi.pyscsi.scsi_command import SCSICommand
 
     derived_decoders(ctx, S)
+    own_commands(ctx, S)
     names = list(S.COMMANDS)
     for A in names:
         cA = S.COMMANDS[A]
